@@ -52,6 +52,8 @@ class G:
                 pool = lambda: r.choice((0.0, 1.0, -1.0)) if r.random() < 0.15 else r.randint(-32, 32) / 8.0
             elif dom == "pos":
                 pool = lambda: r.randint(2, 32) / 8.0
+            elif dom == "neg":
+                pool = lambda: -r.randint(2, 32) / 8.0
             elif dom == "unit":
                 pool = lambda: r.randint(-14, 14) / 16.0
             elif dom == "ge1":
@@ -78,6 +80,8 @@ class G:
             lo, hi = (0, 9) if u else (-6, 6)
         elif dom in ("pos", "ge1"):
             lo, hi = 1, 6
+        elif dom == "neg":
+            lo, hi = (0, 0) if u else (-6, -1)
         elif dom == "nz":
             return [(r.randint(1, 9) if u else r.choice((-1, 1)) * r.randint(1, 6)) for _ in range(n)]
         elif dom == "small":
